@@ -546,6 +546,7 @@ def r13g(ck, prog):
     (a sampling cap makes the kind depend on the order of the records)"""
     from ..bytedom import char_origin
     n = 0
+    counted_in = set()
     for F in prog.lib_functions():
         for u in F.body.walk():
             if not ((u.k == "UnaryOperator" and u.d["op"] == "++") or (u.k == "CompoundAssignOperator" and u.d["op"] == "+=")):
@@ -555,9 +556,19 @@ def r13g(ck, prog):
                     t.kids[0].strip(casts=True).d.get("field") == "letter_freq"):
                 continue
             org = char_origin(t.kids[1])
+            alias = None
+            ix = t.kids[1].strip(casts=True)
+            if not org and ix.k == "DeclRefExpr" and ix.d.get("dk") == "Var":
+                # int c = (unsigned char)line[i]; ... letter_freq[c]++
+                from ..util import local_defs
+                defs = [d for d, _ in local_defs(F, ix.d["did"]) if d is not None]
+                if len(defs) == 1:
+                    org = char_origin(defs[0])
+                    alias = (Sym(did=ix.d["did"], ty=ix.ty), defs[0])
             if len(org) != 1:
                 continue                    # indexed by a counter (merge of two histograms), not by an input character
             n += 1
+            counted_in.add(F.name)
             sym = Sym(text=org[0].text())
             where = site(prog, u, "letter_freq++")
             loop = next((a for a in u.ancestors() if a.k in ("ForStmt", "WhileStmt", "DoStmt")), None)
@@ -588,6 +599,9 @@ def r13g(ck, prog):
                 unknown = False
                 for b in list(range(65, 91)) + list(range(97, 123)):
                     v = ev(c, sym, b)
+                    if v is None and alias is not None:
+                        av = ev(alias[1], sym, b)
+                        v = ev(c, alias[0], av) if av is not None else None
                     if v is None:
                         unknown = True
                         break
@@ -612,7 +626,13 @@ def r13g(ck, prog):
                                      F.name, c.text()[:50], nm), prog.config)
                     continue
                 raise AnalysisBroken("R13g: %s counts a character under the condition %s, which is not a test of the character" % (F.name, c.text()[:50]))
-    ck.floor("R13g", n, 4, "histogram increments indexed by an input character")
+    ck.floor("R13g", n, 1, "histogram increments indexed by an input character")
+    # every reader reaches one of them (directly or through a helper): the rule saw the counting of each input format
+    from ..callgraph import CallGraph
+    cg = CallGraph(prog)
+    for r in ("read_fasta", "read_clu", "read_msf", "kalign_arr_to_msa"):
+        if not (cg.reachable({r}) & counted_in):
+            raise AnalysisBroken("R13g: no histogram increment by an input character is reachable from %s" % r)
 
 
 def run(ck, progs):
